@@ -288,15 +288,21 @@ func statsList(field string, vl, ts bool) string {
 func layout(r *vhlib.Rng, evs []Ev) []string {
 	var modes []string
 	n := len(evs)
-	style := r.Intn(4) // 0: one batch; 1: flush every j; 2: rotate every j; 3: random mix
+	// 0: one flushed batch; 1: one batch, rotated; 2: flush every j; 3: rotate every j; 4: random mix.
+	// Rotated segments are read through the column files (time-range trimming of boundary blocks happens
+	// in the aggregation stage), unrotated ones through the in-memory path: both must be cut by ranges.
+	style := r.Intn(5)
 	j := r.Range(1, 7)
-	if style == 0 {
+	if style == 3 {
+		j = r.Range(2, 8)
+	}
+	if style <= 1 {
 		j = n
 	}
 	b, seg := 0, 0
 	for i := 0; i < n; {
 		m := j
-		if style == 3 {
+		if style == 4 {
 			m = r.Range(1, 6)
 		}
 		if i+m > n {
@@ -306,7 +312,7 @@ func layout(r *vhlib.Rng, evs []Ev) []string {
 			evs[x].Batch, evs[x].Seg = b, seg
 		}
 		mode := "f"
-		if style == 2 || (style == 3 && r.Chance(40)) {
+		if style == 1 || style == 3 || (style == 4 && r.Chance(50)) {
 			mode = "r"
 		}
 		modes = append(modes, mode)
@@ -466,15 +472,23 @@ func addCutQueries(r *vhlib.Rng, ds *Dataset) {
 		}
 	}
 	// a block with at least 3 events: both ends strictly inside it
-	for b := range ds.Modes {
-		ix := batchIdx(ds.Evs, b)
-		if len(ix) >= 3 {
-			i := ix[r.Range(1, len(ix)-2)]
-			j := ix[r.Range(1, len(ix)-2)]
-			if i > j {
-				i, j = j, i
+	// prefer a rotated block, then any block, with at least 3 events
+	for _, wantMode := range []string{"r", "f"} {
+		done := false
+		for b := range ds.Modes {
+			ix := batchIdx(ds.Evs, b)
+			if len(ix) >= 3 && ds.Modes[b] == wantMode {
+				i := ix[r.Range(1, len(ix)-2)]
+				j := ix[r.Range(1, len(ix)-2)]
+				if i > j {
+					i, j = j, i
+				}
+				add("both_ends_in_one_block", ts(i)-uint64(r.Intn(2)), ts(j)+1)
+				done = true
+				break
 			}
-			add("both_ends_in_one_block", ts(i)-uint64(r.Intn(2)), ts(j)+1)
+		}
+		if done {
 			break
 		}
 	}
@@ -493,6 +507,9 @@ func addCutQueries(r *vhlib.Rng, ds *Dataset) {
 	// quick tier: 3 of the cuts per dataset (all of them in the long run over seeds / thorough)
 	for len(cuts) > 3 && !cutAll {
 		k := r.Intn(len(cuts))
+		if cuts[k].name == "both_ends_in_one_block" {
+			continue
+		}
 		cuts = append(cuts[:k], cuts[k+1:]...)
 	}
 	idCut := r.Range(1, n-1)
@@ -1369,6 +1386,19 @@ func (c *checker) evalGroup(o WObs, evs []Ev) {
 				}
 			}
 		}
+		if cnt > len(null) {
+			extra := 0
+			for _, e := range outsideRange(c.ds, q) {
+				if _, ok := groupKeyOf(e, q.By); !ok {
+					extra++
+				}
+			}
+			if cnt <= len(null)+extra {
+				c.fail("groupby_includes_events_outside_time_range", fmt.Sprintf("range [%d,%d] (%s): %d events inside the range lack %s, the empty-key row counts %d",
+					q.Start, q.End, q.Cut, len(null), q.By, cnt))
+				return
+			}
+		}
 		if cnt != len(null) {
 			cls := "group_null_row_partial"
 			if q.Expect == "sparse_group_null_bucket_partial" {
@@ -1912,7 +1942,7 @@ func bucketCases(r *vhlib.Rng, sum *vhlib.Summary, out string, n int) {
 func genJobs(r *vhlib.Rng, thorough bool) []*job {
 	nMain, nKnown := 26, 1
 	if thorough {
-		nMain, nKnown = 500, 12
+		nMain, nKnown = 400, 12
 		cutAll = true
 	}
 	var jobs []*job
@@ -1957,7 +1987,7 @@ func main() {
 			if err != nil {
 				break
 			}
-			fmt.Println("Q:", q.Text, "err:", obs[qi].Err)
+			fmt.Printf("Q: %s | cut=%s range=[T0%+d, T0%+d] matched=%d err=%q\n", q.Text, q.Cut, int64(q.Start)-int64(T0), int64(q.End)-int64(T0), len(matched(ds, q)), obs[qi].Err)
 			for _, row := range obs[qi].Rows {
 				b, _ := json.Marshal(row.M)
 				fmt.Printf("    %q %s\n", row.G, b)
